@@ -1,9 +1,225 @@
-import MontePyVerif.Model.Reader
-import MontePyVerif.Spec.Text
-/-! # C11 — the problem read does not depend on the file's physical layout -/
-namespace MontePyVerif.C11
-open MontePyVerif.Reader
+import MontePyVerif.Lemmas.Flatten
+/-!
+# C11 — the problem read does not depend on the file's physical layout
 
-theorem C11_stub : cleanLine [13, 10] = ['\n'] := rfl
+What is proved here is the **reader half** of C11 (lines → inputs): `_clean_line` and line splitting (LF / CRLF),
+tab expansion, and the refinement of the model of `read_data` to the Spec reader.  The **lexer / LALR half**
+(letter case, `=` versus blank, padding anywhere) lives in SLY, which is not modelled: it is tied by validation on
+the real parser only (tools/props/c11.py), and is *not* claimed as a theorem.
+-/
+namespace MontePyVerif.C11
+open MontePyVerif MontePyVerif.Reader MontePyVerif.Refine MontePyVerif.Flatten MontePyVerif.LineFacts
+
+/-! ## `_clean_line` and the line ends -/
+
+/-- an ASCII line body: no byte ≥ 127, no CR, no LF -/
+def PlainBytes (bs : List Nat) : Prop := ∀ b ∈ bs, b < Gen.asciiCeiling ∧ b ≠ 13 ∧ b ≠ 10
+
+theorem cleanByte_plain (b : Nat) (h : b < Gen.asciiCeiling) : cleanByte b = Char.ofNat b := by
+  unfold cleanByte; simp [h]
+
+/-- bytes at or above `ASCII_CEILING` become blanks -/
+theorem C11_clean_high (b : Nat) (h : b ≥ Gen.asciiCeiling) : cleanByte b = ' ' := by
+  unfold cleanByte; simp; omega
+
+theorem ofNat_ne_cr (b : Nat) (h1 : b < Gen.asciiCeiling) (h2 : b ≠ 13) : Char.ofNat b ≠ '\r' := by
+  intro e
+  have hb : b < 127 := h1
+  have hv : b.isValidChar := by unfold Nat.isValidChar; omega
+  have : (Char.ofNat b).val.toNat = b := by
+    simp [Char.ofNat, hv, Char.ofNatAux]
+  rw [e] at this
+  exact h2 (by simpa using this.symm)
+
+theorem fixNewlines_cons (c : Char) (t : List Char) (h : c ≠ '\r') : fixNewlines (c :: t) = c :: fixNewlines t :=
+  fixNewlines.eq_4 c t (fun _ e _ => h e) (fun e => h e)
+
+theorem fixNewlines_noCR (s : List Char) (h : ∀ c ∈ s, c ≠ '\r') : fixNewlines s = s := by
+  induction s with
+  | nil => rfl
+  | cons c t ih =>
+    rw [fixNewlines_cons c t (h c (by simp)), ih (fun d hd => h d (List.mem_cons_of_mem _ hd))]
+
+/-- **C11_clean** (nothing else changes): a line of plain ASCII bytes is decoded byte by byte -/
+theorem C11_clean_plain (bs : List Nat) (h : PlainBytes bs) : cleanLine bs = bs.map Char.ofNat := by
+  unfold cleanLine
+  have hm : bs.map cleanByte = bs.map Char.ofNat :=
+    List.map_congr_left (fun b hb => cleanByte_plain b (h b hb).1)
+  rw [hm]
+  apply fixNewlines_noCR
+  intro c hc
+  obtain ⟨b, hb, rfl⟩ := List.mem_map.mp hc
+  exact ofNat_ne_cr b (h b hb).1 (h b hb).2.1
+
+theorem fixNewlines_append_noCR (s t : List Char) (h : ∀ c ∈ s, c ≠ '\r') :
+    fixNewlines (s ++ t) = s ++ fixNewlines t := by
+  induction s with
+  | nil => rfl
+  | cons c s ih =>
+    rw [List.cons_append, fixNewlines_cons c _ (h c (by simp)), ih (fun d hd => h d (List.mem_cons_of_mem _ hd))]
+    rfl
+
+/-- **C11_clean** (line ends): LF, CRLF and a lone CR at the end of a plain line all become one LF -/
+theorem C11_clean (bs : List Nat) (h : PlainBytes bs) :
+    cleanLine (bs ++ [10]) = bs.map Char.ofNat ++ ['\n'] ∧
+    cleanLine (bs ++ [13, 10]) = bs.map Char.ofNat ++ ['\n'] ∧
+    cleanLine (bs ++ [13]) = bs.map Char.ofNat ++ ['\n'] := by
+  have hm : bs.map cleanByte = bs.map Char.ofNat :=
+    List.map_congr_left (fun b hb => cleanByte_plain b (h b hb).1)
+  have hn : ∀ c ∈ bs.map Char.ofNat, c ≠ '\r' := by
+    intro c hc
+    obtain ⟨b, hb, rfl⟩ := List.mem_map.mp hc
+    exact ofNat_ne_cr b (h b hb).1 (h b hb).2.1
+  unfold cleanLine
+  simp only [List.map_append, hm]
+  refine ⟨?_, ?_, ?_⟩ <;> rw [fixNewlines_append_noCR _ _ hn] <;> rfl
+
+/-! ## lines of a file: LF and CRLF files are read alike -/
+
+theorem splitLinesAux_line (l rest cur : List Nat) (h : ∀ b ∈ l, b ≠ 10) :
+    splitLinesAux (l ++ 10 :: rest) cur = (cur.reverse ++ l ++ [10]) :: splitLinesAux rest [] := by
+  induction l generalizing cur with
+  | nil => simp [splitLinesAux]
+  | cons b l ih =>
+    have hb : b ≠ 10 := h b (by simp)
+    simp only [List.cons_append, splitLinesAux]
+    have : (b == 10) = false := by simpa using hb
+    simp only [this, Bool.false_eq_true, ↓reduceIte]
+    rw [ih _ (fun x hx => h x (List.mem_cons_of_mem _ hx))]
+    simp
+
+/-- the bytes of a file whose lines `ls` all end in `eol` -/
+def encode (eol : List Nat) (ls : List (List Nat)) : List Nat := ls.flatMap (· ++ eol)
+
+theorem splitLines_encode (pre : List Nat) (hpre : ∀ b ∈ pre, b ≠ 10) (ls : List (List Nat))
+    (h : ∀ l ∈ ls, ∀ b ∈ l, b ≠ 10) :
+    splitLines (encode (pre ++ [10]) ls) = ls.map (· ++ pre ++ [10]) := by
+  unfold splitLines encode
+  induction ls with
+  | nil => rfl
+  | cons l ls ih =>
+    simp only [List.flatMap_cons, List.map_cons]
+    have : l ++ (pre ++ [10]) ++ List.flatMap (fun x => x ++ (pre ++ [10])) ls =
+        (l ++ pre) ++ 10 :: List.flatMap (fun x => x ++ (pre ++ [10])) ls := by simp
+    rw [this, splitLinesAux_line (l ++ pre) _ []]
+    · rw [ih (fun l' hl' => h l' (List.mem_cons_of_mem _ hl'))]; simp
+    · intro b hb
+      rcases List.mem_append.mp hb with hb | hb
+      · exact h l (by simp) b hb
+      · exact hpre b hb
+
+/-- **C11_crlf**: a file written with CRLF line ends gives the reader the very lines of the same file written
+    with LF line ends: each line body decoded byte by byte, followed by one `"\n"` -/
+theorem C11_crlf (ls : List (List Nat)) (h : ∀ l ∈ ls, PlainBytes l) :
+    fileLines (encode [13, 10] ls) = ls.map (fun l => l.map Char.ofNat ++ ['\n']) ∧
+    fileLines (encode [10] ls) = ls.map (fun l => l.map Char.ofNat ++ ['\n']) := by
+  have h10 : ∀ l ∈ ls, ∀ b ∈ l, b ≠ 10 := fun l hl b hb => (h l hl b hb).2.2
+  constructor
+  · unfold fileLines
+    have := splitLines_encode [13] (by simp) ls h10
+    simp only [List.cons_append, List.nil_append] at this
+    rw [this, List.map_map]
+    apply List.map_congr_left
+    intro l hl
+    simp only [Function.comp, List.append_assoc, List.cons_append, List.nil_append]
+    exact (C11_clean l (h l hl)).2.1
+  · unfold fileLines
+    have := splitLines_encode [] (by simp) ls h10
+    simp only [List.nil_append, List.append_nil] at this
+    rw [this, List.map_map]
+    apply List.map_congr_left
+    intro l hl
+    exact (C11_clean l (h l hl)).1
+
+/-! ## tabs -/
+
+/-- **C11_tabs**: the model's `expandtabs(8)` of a line (with its terminator) is the Spec's tab expansion of the
+    line body: a tab is as many blanks as reach the next multiple of eight -/
+theorem C11_tabs (l t : List Char) (hl : ∀ c ∈ l, c ≠ '\n' ∧ c ≠ '\r') (ht : IsTerm t) (col : Nat) :
+    expandtabsAux Gen.tabSize col (l ++ t) = Spec.expandTabsFrom col l ++ t := by
+  have e8 : Gen.tabSize = 8 := rfl
+  rw [e8]
+  induction l generalizing col with
+  | nil =>
+    rcases ht with rfl | rfl
+    · rfl
+    · simp [expandtabsAux, Spec.expandTabsFrom]
+  | cons c l ih =>
+    have hc := hl c (by simp)
+    have ih' := fun col => ih (fun d hd => hl d (List.mem_cons_of_mem _ hd)) col
+    simp only [List.cons_append, expandtabsAux, Spec.expandTabsFrom]
+    by_cases htab : c = '\t'
+    · subst htab
+      simp only [beq_self_eq_true, ↓reduceIte]
+      rw [ih', List.append_assoc]
+    · have h1 : (c == '\t') = false := by simpa using htab
+      have h2 : (c == '\n' || c == '\r') = false := by simp [hc.1, hc.2]
+      simp only [h1, Bool.false_eq_true, ↓reduceIte, htab, h2, ih', List.cons_append]
+
+/-! ## the reader refines the Spec -/
+
+/-- **C11_reader_refines_spec**: on a file whose lines are `GoodLine`s (the named exclusions: white space other
+    than the blank, a line of exactly the limit, `#` in columns 1-5, `&` directly before `$`, a line holding only
+    `$…` or `&`, a `$` glued to a word) and that is well terminated (no data behind the blank line that ends the
+    data block: known finding C11-F1), the inputs the model of `read_data` yields — block and words, read cards and
+    errors included — are the Spec reader's, for every starting block (a file pulled in by a read card starts in the
+    block of the card). -/
+theorem C11_reader_refines_spec (limit : Nat) (cfg : Cfg) (hl : cfg.lineLength = limit)
+    (mlines : List Str) (slines : List Spec.Line) (h : FileOK limit cfg.firstBlock.value mlines slines) :
+    proj (readData cfg mlines) =
+      Spec.cutS (Spec.fileStream limit (joinPath cfg.topDir) cfg.chain cfg.firstBlock.value slines) :=
+  fileStream_ok cfg hl mlines slines h
+
+theorem inputsOf_map_notRead (resolve : Spec.Word → List Char) (chain : List (List Char)) (is : List Spec.Inp)
+    (h : ∀ i ∈ is, Spec.cardOf i.words = .notRead) :
+    Spec.cutS (is.map (Spec.outOf resolve chain)) = is.map .inp := by
+  induction is with
+  | nil => rfl
+  | cons i is ih =>
+    have hi := h i (by simp)
+    simp only [List.map_cons, Spec.outOf, hi, Spec.cutS]
+    rw [ih (fun j hj => h j (List.mem_cons_of_mem _ hj))]
+
+/-- … in particular, in a file without read cards (the domain of C11: the core grammar excludes them) the model
+    yields exactly the Spec's inputs, in order, each in its block, with its words -/
+theorem C11_reader_inputs (limit : Nat) (cfg : Cfg) (hl : cfg.lineLength = limit)
+    (mlines : List Str) (slines : List Spec.Line) (h : FileOK limit cfg.firstBlock.value mlines slines)
+    (hnr : ∀ i ∈ Spec.inputsFrom limit cfg.firstBlock.value slines, Spec.cardOf i.words = .notRead) :
+    proj (readData cfg mlines) = (Spec.inputsFrom limit cfg.firstBlock.value slines).map .inp := by
+  rw [C11_reader_refines_spec limit cfg hl mlines slines h]
+  unfold Spec.fileStream
+  exact inputsOf_map_notRead _ _ _ hnr
+
+/-- **C11_reader_layout** (reader half of C11): two files — however differently laid out — in which the Spec reader
+    finds the same inputs give the same inputs in the model of `read_data`, word for word -/
+theorem C11_reader_layout (limit : Nat) (cfg : Cfg) (hl : cfg.lineLength = limit)
+    (m1 m2 : List Str) (s1 s2 : List Spec.Line)
+    (h1 : FileOK limit cfg.firstBlock.value m1 s1) (h2 : FileOK limit cfg.firstBlock.value m2 s2)
+    (hsame : Spec.inputsFrom limit cfg.firstBlock.value s1 = Spec.inputsFrom limit cfg.firstBlock.value s2) :
+    proj (readData cfg m1) = proj (readData cfg m2) := by
+  rw [C11_reader_refines_spec limit cfg hl m1 s1 h1, C11_reader_refines_spec limit cfg hl m2 s2 h2]
+  unfold Spec.fileStream
+  rw [hsame]
+
+/-! ### non-vacuity: one cell card in two layouts (`&` with trailing blanks and the next line in column 1; five-blank
+    continuation) -/
+
+/-- `"1 0 -1 &  \n2 imp:n=1\n"` -/
+def exLayoutA : List Nat := [49, 32, 48, 32, 45, 49, 32, 38, 32, 32, 10, 50, 32, 105, 109, 112, 58, 110, 61, 49, 10]
+/-- `"1 0 -1\r\n     2 imp:n=1\r\n"` (CRLF) -/
+def exLayoutB : List Nat :=
+  [49, 32, 48, 32, 45, 49, 13, 10, 32, 32, 32, 32, 32, 50, 32, 105, 109, 112, 58, 110, 61, 49, 13, 10]
+def exCfg : Cfg := ⟨128, .cell, ['x'], [['x']]⟩
+
+example : FileOK 128 0 (fileLines exLayoutA) ["1 0 -1 &  ".toList, "2 imp:n=1".toList] :=
+  exFileOK 0 (by decide) _ exLayoutA (by decide) (by decide)
+example : FileOK 128 0 (fileLines exLayoutB) ["1 0 -1".toList, "     2 imp:n=1".toList] :=
+  exFileOK 0 (by decide) _ exLayoutB (by decide) (by decide)
+example : Spec.inputsFrom 128 0 ["1 0 -1 &  ".toList, "2 imp:n=1".toList] =
+    Spec.inputsFrom 128 0 ["1 0 -1".toList, "     2 imp:n=1".toList] := by decide
+example : proj (readData exCfg (fileLines exLayoutA)) =
+    [.inp ⟨0, ["1".toList, "0".toList, "-1".toList, "2".toList, "imp:n=1".toList]⟩] := by decide
+example : PlainBytes [49, 32, 48] := by unfold PlainBytes; decide
+example : cleanLine [49, 200, 13, 10] = ['1', ' ', '\n'] := by decide
 
 end MontePyVerif.C11
